@@ -43,7 +43,7 @@ MUTANTS = [
       old="reverse=True)[:snapshots_in_ram]:", new="reverse=True)[:snapshots_in_ram + 1]:", names="ram-slice"),
  dict(id="M03c", props=["C03"], file=MS, what="capacity guard off by one",
       old="if len(snapshots) >= self._snapshots_in_ram + self._snapshots_on_disk:  # noqa: E501", new="if len(snapshots) > self._snapshots_in_ram + self._snapshots_on_disk:  # noqa: E501",
-      names="capacity-guard"),
+      names="capacity-guard", expect=[2]),     # a weakened never-firing guard: behaviour unchanged, so never a VIOLATION
  # ---- C04
  dict(id="M04a", props=["C04", "C01"], file=TL, what="TwoLevel copies the last-use binomial checkpoint instead of moving it",
       old="yield Move(cp_n, self._binomial_storage, StorageType.WORK)", new="yield Copy(cp_n, self._binomial_storage, StorageType.WORK)",
